@@ -33,12 +33,14 @@ CONSTANTS Handles,         \* 1..N
           SingletonTypes,  \* rdtypes that may hold one record only (RFC 1034/1035/6672/4034)
           SigTypes,        \* rdtypes whose records cover another type
           InitStates,      \* set of initial values of hs
-          MaxIndex         \* bound for positional deletes (model checking only)
+          MaxIndex,        \* bound for positional deletes (model checking only)
+          DynTypes         \* rdtypes without a built-in meaning that an application may register at run time
 
 VARIABLES hs,    \* hs[h] = [items, ttl, rdclass, rdtype, covers, frozen]
+          reg,   \* run-time type registrations: set of <<rdtype, is_singleton>>
           last   \* [kind, h]: what the last step was ("init", "inplace", "copy", "freeze",
-                 \* "refused") and which handle it targeted
-vars == <<hs, last>>
+          \* "refused", "register") and which handle it targeted
+vars == <<hs, last, reg>>
 
 NoTtl == -1
 Untyped == "-"
@@ -73,7 +75,10 @@ IsSubseq(s, u) ==      \* s can be obtained from u by deleting elements
 ---------------------------------------------------------------------------
 (* Handles *)
 IsTyped(R) == R.rdclass # Untyped
-IsSingleton(R) == IsTyped(R) /\ R.rdtype \in SingletonTypes
+(* singleton types: the built-in ones and those an application registered as such
+   (dns.rdata.register_type(..., is_singleton=True)) - from the registration on *)
+DynSingles == {q[1] : q \in {p \in reg : p[2]}}
+IsSingleton(R) == IsTyped(R) /\ R.rdtype \in SingletonTypes \cup DynSingles
 IsSig(R) == IsTyped(R) /\ R.rdtype \in SigTypes
 
 (* "A record of a different class, type or covered type is refused."  An empty
@@ -184,7 +189,7 @@ TtlOk(op, R, O, a, nt) ==
 
 ---------------------------------------------------------------------------
 (* Steps *)
-Refuse(h) == /\ UNCHANGED hs
+Refuse(h) == /\ UNCHANGED <<hs, reg>>
              /\ last' = [kind |-> "refused", h |-> h]
 
 (* in-place call on handle h.  nt = the TTL the set has afterwards.  quiet = the receiver
@@ -200,7 +205,7 @@ Do(op, h, a, nt, quiet) ==
           THEN Refuse(h)
           ELSE /\ TtlOk(op, R, O, a, nt)
                /\ hs' = [hs EXCEPT ![h] = New]
-               /\ last' = [kind |-> "inplace", h |-> h]
+               /\ last' = [kind |-> "inplace", h |-> h] /\ UNCHANGED reg
 
 (* copying call: a new object, bound to handle r, computed from handle s (and a.o);
    fr = whether the new object is immutable (only an immutable receiver may produce one) *)
@@ -213,13 +218,24 @@ Make(op, r, s, a, nt, fr) ==
           ELSE /\ TtlOk(op, R, O, a, nt)
                /\ fr => R.frozen
                /\ hs' = [hs EXCEPT ![r] = [Result(op, R, O, a) EXCEPT !.ttl = nt, !.frozen = fr]]
-               /\ last' = [kind |-> "copy", h |-> r]
+               /\ last' = [kind |-> "copy", h |-> r] /\ UNCHANGED reg
 
 (* wrap the content of a typed set into an immutable set *)
 Freeze(h) ==
     /\ IsTyped(hs[h])
     /\ hs' = [hs EXCEPT ![h].frozen = TRUE]
-    /\ last' = [kind |-> "freeze", h |-> h]
+    /\ last' = [kind |-> "freeze", h |-> h] /\ UNCHANGED reg
+
+(* the application registers an implementation for a so far unknown type, as a singleton
+   type or not.  The type may already have been used (as generic records); registering
+   it as a singleton while some set holds several records of it is outside the model. *)
+Register(ty, single) ==
+    /\ ty \in DynTypes
+    /\ \A q \in reg : q[1] # ty
+    /\ single => \A h \in Handles : hs[h].rdtype = ty => Len(hs[h].items) <= 1
+    /\ reg' = reg \cup {<<ty, single>>}
+    /\ UNCHANGED hs
+    /\ last' = [kind |-> "register", h |-> 0]
 
 ---------------------------------------------------------------------------
 (* Argument universes (only the fields a call reads vary) *)
@@ -239,6 +255,7 @@ ArgSet(op, h) ==
          [] OTHER -> {D}
 
 Init == /\ hs \in InitStates
+        /\ reg = {}
         /\ last = [kind |-> "init", h |-> 0]
 
 (* Next enumerates the TTL choices the property constrains (Ttls); the actions also admit
@@ -251,6 +268,7 @@ Next ==
          \E nt \in Ttls(op, hs[s], hs[a.o], a), fr \in (IF hs[s].frozen THEN BOOLEAN ELSE {FALSE}) :
             Make(op, r, s, a, nt, fr)
     \/ \E h \in Handles : Freeze(h)
+    \/ \E ty \in DynTypes, single \in BOOLEAN : Register(ty, single)
 
 Spec == Init /\ [][Next]_vars
 
@@ -271,7 +289,7 @@ EqAllowed(A, B) ==
 ---------------------------------------------------------------------------
 (* Properties of the specification itself *)
 TypeOK ==
-    /\ last.kind \in {"init", "inplace", "copy", "freeze", "refused"}
+    /\ last.kind \in {"init", "inplace", "copy", "freeze", "refused", "register"}
     /\ \A h \in Handles : hs[h].frozen \in BOOLEAN /\ hs[h].ttl \in Int
 Duplicates_Collapse == \A h \in Handles : NoDup(hs[h].items)
 Kind_Respected ==
